@@ -44,6 +44,8 @@ def cases(tier, seed):
         out.append(dict(name=f"pml-lossless-r{r}", T=T, r=r, mat="lossless", shape=(3, 3, 6), pml=True))
     out.append(dict(name=f"pml-magnetic-r{1}", T=T, r=1, mat="magnetic", shape=(3, 3, 6), pml=True))
     out.append(dict(name=f"pml-conductive-r{T - 1}", T=T, r=T - 1, mat="conductive", shape=(3, 3, 6), pml=True))
+    # fully anisotropic lossless background: update_E/update_E_reverse take their 9-component branch (seeded change C04b)
+    out.append(dict(name="periodic-fulltensor-r1", T=min(T, 3), r=1, mat="fulltensor", shape=(3, 2, 4), pml=False))
     if tier != "quick":
         out.append(dict(name="periodic-lossless-r2", T=T, r=2, mat="lossless", shape=(3, 2, 4), pml=False))
         out.append(dict(name="periodic-conductive-rfull", T=T, r=T - 1, mat="conductive", shape=(3, 2, 4), pml=False))
@@ -55,6 +57,8 @@ def _bg(m):
         return fdtdx.Material(permittivity=2.0)
     if m == "magnetic":
         return fdtdx.Material(permittivity=(2.0, 2.5, 1.5), permeability=(1.5, 1.2, 2.0))
+    if m == "fulltensor":
+        return fdtdx.Material(permittivity=((2.0, 0.3, 0.1), (0.3, 2.5, 0.2), (0.1, 0.2, 3.0)))
     if m == "conductive":
         return fdtdx.Material(permittivity=2.0, electric_conductivity=0.8)
     raise ValueError(m)
@@ -65,7 +69,7 @@ def run_case(c, case):
     c.functions.update(META["functions"])
     c.bounds.update(T=T, shape=list(shape), r=case["r"])
     rng = np.random.default_rng(c.seed + 21)
-    src = ("dipole", "plane") if case["mat"] != "magnetic" else ("dipole", "mdipole")  # plane sources are rejected in anisotropic media
+    src = ("dipole", "plane") if case["mat"] not in ("magnetic", "fulltensor") else ("dipole", "mdipole")  # plane sources are rejected in anisotropic media
 
     def mk(gc):
         S = _run.scene(shape, T, pml=case["pml"], gradient_config=gc, background=_bg(case["mat"]), src_kinds=src)
